@@ -4,6 +4,10 @@ package c08
 import (
 	"errors"
 
+	"github.com/bitcoin-sv/block-headers-service/domains"
+	"github.com/bitcoin-sv/block-headers-service/internal/chaincfg"
+	"github.com/bitcoin-sv/block-headers-service/internal/chaincfg/chainhash"
+
 	"github.com/bitcoin-sv/block-headers-service/bhserrors"
 	"github.com/bitcoin-sv/block-headers-service/config"
 	"github.com/bitcoin-sv/block-headers-service/internal/zzverif/hstore"
@@ -42,6 +46,11 @@ func HarnessPage(k int) {
 
 	page, err := svc.GetMerkleRoots(batch, key)
 
+	checkPage(pre, batch, key, page, err)
+}
+
+// checkPage asserts the page lemma for one answer against the stored rows.
+func checkPage(pre []hstore.H, batch int, key string, page *domains.MerkleRootsESKPagedResponse, err error) {
 	// classification of the key
 	keyEmpty := vh.StrEq(key, "")
 	matches, matchesLongest := false, false
@@ -92,3 +101,56 @@ func HarnessPage(k int) {
 	vh.Assert("C08/page-info", vh.And(page.Page.Size == n, page.Page.TotalElements == tipH))
 	vh.Reach("page")
 }
+
+
+type fixedHasher struct{ h chainhash.Hash }
+
+func (a fixedHasher) BlockHash(*domains.BlockHeaderSource) domains.BlockHash { return domains.BlockHash(a.h) }
+
+type nopNotifier struct{}
+
+func (nopNotifier) Notify(any) {}
+
+// HarnessPageAfterAdd: a walk interleaved with ingestion. A page is requested, then one arbitrary
+// header is ingested (possibly reorganising the chain), then another page is requested with an
+// arbitrary key (possibly the same one): the second answer must satisfy the page lemma on the
+// NEW store. Anything the service remembers between the two requests is exercised here.
+func HarnessPageAfterAdd(k int) {
+	pre := make([]hstore.H, k)
+	for i := range pre {
+		pre[i] = hstore.NondetH()
+	}
+	vh.Assume(hstore.Inv(pre, nil))
+	vh.Assume(hstore.PositiveWork(pre))
+	db := hstore.Store(pre)
+	repos := hstore.Repos(db)
+	svc := service.NewMerklerootsService(repos, &config.MerkleRootConfig{}, vh.Logger())
+	key1 := vh.NondetStr("key1")
+	_, _ = svc.GetMerkleRoots(1, key1)
+
+	newHash := vh.NondetHash("newhash")
+	bs := domains.BlockHeaderSource{Version: 1, PrevBlock: vh.NondetHash("sprev"), MerkleRoot: vh.NondetHash("smerkle"),
+		Timestamp: vh.NondetTime("sts"), Bits: 0x1d00ffff, Nonce: vh.NondetU32("snonce")}
+	hashes, prevs := []chainhash.Hash{newHash}, []chainhash.Hash{bs.PrevBlock}
+	for i := range pre {
+		hashes, prevs = append(hashes, pre[i].Hash), append(prevs, pre[i].Prev)
+	}
+	vh.Assume(hstore.Acyclic(hashes, prevs))
+	vh.Assume(!vh.HashEq(newHash, pre[0].Prev))
+	cs := service.NewChainsService(repos, &chaincfg.Params{}, vh.Logger(), fixedHasher{newHash}, nopNotifier{})
+	_, _ = cs.Add(bs)
+
+	post, ok := hstore.Load(db)
+	vh.Assume(ok)
+	for i := range post {
+		for j := 0; j < i; j++ {
+			vh.Assume(!vh.HashEq(post[i].Merkle, post[j].Merkle)) // precondition of the statement
+		}
+	}
+	batch := vh.NondetInt("batch")
+	vh.Assume(batch >= 0)
+	key2 := vh.NondetStr("key2")
+	page, err := svc.GetMerkleRoots(batch, key2)
+	checkPage(post, batch, key2, page, err)
+}
+
